@@ -97,7 +97,7 @@ def shown(b: bytes) -> str:
 # ---- the transport's other end ---------------------------------------------------------------
 
 
-class PipeWriter:
+class PipeWriter(st.WriterShape):
     """Stands in for asyncio.StreamWriter: records every write call, fails the scripted ones with an OS-level error."""
 
     def __init__(self) -> None:
@@ -125,6 +125,7 @@ class PipeWriter:
 
     def close(self) -> None:
         self.closed = True
+        self.release_stand_ins()
 
     async def wait_closed(self) -> None:
         pass
@@ -134,8 +135,8 @@ class _Open:
     last = None
 
 
-async def _open(**_kw):
-    _Open.last = (asyncio.StreamReader(limit=LIMIT), PipeWriter())
+async def _open(**kw):
+    _Open.last = (asyncio.StreamReader(limit=LIMIT), st.shaped(PipeWriter(), kw))
     return _Open.last
 
 
